@@ -21,7 +21,7 @@ def ds(name="DS", task="T", output="0"):
 
 def worker(host="H1", w="w0"):
     h = host if not isinstance(host, str) else Atom(host)
-    return Obj(WQ, {"host": h, "worker": w}, name=f"W_{vkey(h)}_{w}")
+    return Obj(WQ, {"host": h, "worker": w}, name=f"W_{vkey(h)}_{w}", frozen=True)
 
 
 def st(member):
@@ -126,3 +126,8 @@ def r_last_output_order(ctx):
                           "runner.run orders outputs with a custom key/reverse; is_last_output_of uses plain key order")
         else:
             ctx.ok(rid, loc(run, plain[0]), "runner orders declared outputs by plain key sort")
+
+
+def dsid(task, output="0"):
+    """A DatasetId as the repo's own constructor would build it (structural equality)."""
+    return Obj(DSQ, {"task": task, "output": output}, frozen=True)
